@@ -11,8 +11,10 @@
       roundtrip_loglik: through RefineTermsFull.logpdf_terms_refines on both sides, when both specifications are accepted
       by Impl.build the implementation model's log-likelihoods agree at parameter points and data that agree by NAME, for any
       density primitives; roundtrip_loglik_canonical: at the same parameter VECTOR and data VECTOR for workspaces already in
-      the shape the XML dictates (the parameter layout is then derived to be the same); spec_rt_loglik_same_vector: same
-      vectors for any spec_rt pair whose layouts coincide (explicit premise same_layout, decidable).
+      the shape the XML dictates, and roundtrip_loglik_same_vector: for ANY listing order of the modifiers provided no shapesys
+      carries an uncertainty on a bin without yield (the parameter layouts are then derived to be the same, the second through
+      ConfigPerm.build_listing_invariant); spec_rt_loglik_same_vector: same vectors for any spec_rt pair whose layouts
+      coincide (explicit premise same_layout, decidable) -- the only case not closed is a shapesys uncertainty on an empty bin.
    4. lik_ws: a concrete workspace (lumi 2 +- 1/5, fixed parameters, staterror, shapesys with an uncertainty on an empty
       bin, histosys, normsys, shapefactor, normfactor with custom bounds, two channels, two measurements) meeting every premise,
       with both specifications accepted and the log-likelihood defined.
@@ -197,7 +199,7 @@ End Rel.
 (* Xml.v; the specification side is written Spec.m_name, Impl.build, Ref.ref_terms, ...                                     *)
 (* ======================================================================================================================== *)
 Require Import PV.Json.
-Require PV.RefineTop PV.RefineTermsFinal PV.RefineTerms PV.RefineTermsTop PV.RefineTermsFull PV.RefineRates PV.RefineTermsBlocks PV.Wf PV.RefineParams.
+Require PV.RefineTop PV.RefineTermsFinal PV.RefineTerms PV.RefineTermsTop PV.RefineTermsFull PV.RefineRates PV.RefineTermsBlocks PV.Wf PV.RefineParams PV.ConfigPerm.
 Require Import PV.Xml PV.XmlThms PV.XmlInst.
 Local Open Scope string_scope.
 Local Open Scope nat_scope.
@@ -782,6 +784,66 @@ Section Top.
     apply (spec_rt_loglik_same_vector (to_spec N ws k) (to_spec N ws' k) S2 (to_spec_list_shape_ok N ws _) (to_spec_shape_ok N ws _) (to_spec_list_shape_ok N ws' _) (to_spec_shape_ok N ws' _)
              ia im st md md' lp ln pars data l l' Hb Hb' Hcg); auto.
     apply (same_channels_layout (to_spec N ws k) (to_spec N ws' k) md md'); auto. simpl. now rewrite R2. Qed.
+  (* ---------- any listing order of the modifiers: where, in addition, no shapesys carries an uncertainty on a bin without
+     yield (the same guard as for staterror), the re-imported channels are the original channels with the lumi modifier moved
+     to the front; build does not depend on the listing order (ConfigPerm.build_listing_invariant), so the layouts coincide ---------- *)
+  Definition shape_guard (ws : workspace N) : Prop :=
+    Forall (fun c => Forall (fun s => Forall (fun m => match m_data N m with DShapesys d => mask N d (s_data N s) = d | _ => True end)
+                                             (s_mods N s)) (c_samples N c)) (w_channels N ws).
+  Lemma expected_nonlumi_id cname sdata ms :
+    Forall (fun m => lumi_wf N m /\ stat_canon N cname sdata m) ms ->
+    Forall (fun m => match m_data N m with DShapesys d => mask N d sdata = d | _ => True end) ms ->
+    flat_map (expected_mod N cname sdata) ms = filter (fun m => negb (is_lumi_type N m)) ms.
+  Proof. induction 1 as [|m ms [Hw Hc] _ IH]; intros Hsh; simpl; auto. inversion Hsh as [|? ? Hm Hsh']; subst. rewrite (IH Hsh').
+    unfold expected_mod. destruct (is_lumi_type N m) eqn:E; simpl.
+    - rewrite (lumi_is N m Hw E). reflexivity.
+    - destruct (String.eqb_spec (m_name N m) "lumi") as [En|En].
+      + exfalso. apply Hw in En. unfold is_lumi_type in E. rewrite En in E. discriminate.
+      + unfold stat_canon in Hc. destruct m as [n d]; simpl in *. destruct d; simpl; auto.
+        * now rewrite Hm.
+        * destruct Hc as [Hc1 Hc2]. now rewrite Hc2, <- Hc1.
+        * discriminate. Qed.
+  Lemma expected_sample_perm cname s : lik_guard_sample N cname s ->
+    Forall (fun m => match m_data N m with DShapesys d => mask N d (s_data N s) = d | _ => True end) (s_mods N s) ->
+    ConfigPerm.sample_perm N (conv_sample N s) (conv_sample N (expected_sample N cname s)).
+  Proof. intros [Hnd HF] Hsh. unfold ConfigPerm.sample_perm. simpl. split; auto. split; auto. apply Permutation_map.
+    rewrite (expected_nonlumi_id _ _ _ HF Hsh), <- lumi_filter; auto.
+    - apply Permutation_sym, filter_split_perm.
+    - eapply Forall_impl; [|exact HF]. intros a Ha. apply Ha. Qed.
+  Lemma expected_spec_perm ws m : lik_guard N ws -> shape_guard ws ->
+    ConfigPerm.spec_perm N (to_spec_m N ws m)
+      {| Spec.channels := map (conv_chan N) (map (expected_channel N) (w_channels N ws));
+         Spec.parameters := Spec.parameters (to_spec_m N ws m); Spec.poi := Spec.poi (to_spec_m N ws m) |}.
+  Proof. intros [_ Hg] Hsh. unfold ConfigPerm.spec_perm. simpl. split; [|split; auto].
+    exists (map (conv_chan N) (map (expected_channel N) (w_channels N ws))). split; auto. rewrite map_map.
+    apply Forall2_map_both. intros c Hc. unfold ConfigPerm.channel_perm. simpl. split; auto.
+    exists (map (conv_sample N) (map (expected_sample N (c_name N c)) (c_samples N c))). split; auto. rewrite map_map.
+    apply Forall2_map_both. intros s0 Hs0. rewrite Forall_forall in Hg. pose proof (Hg c Hc) as Hgc. rewrite Forall_forall in Hgc.
+    unfold shape_guard in Hsh. rewrite Forall_forall in Hsh. pose proof (Hsh c Hc) as Hsc. rewrite Forall_forall in Hsc.
+    apply expected_sample_perm; auto. Qed.
+
+  Theorem roundtrip_loglik_same_vector ws x file k :
+    write N ws = inl (x, file) -> w_obs N ws <> [] -> stat_ok N ws -> names_ok N ws ->
+    lik_guard N ws -> shape_guard ws -> k < length (w_meas N ws) -> cfg_guard N ws (nth k (w_meas N ws) (no_meas N)) ->
+    exists ws', read N x file = inl ws' /\
+      forall ia im st md md' logpois lognorm pars data l l',
+      Impl.build N (to_spec N ws k) = Impl.Ok md -> Impl.build N (to_spec N ws' k) = Impl.Ok md' -> RefineTop.clip_guard N st ->
+      Impl.logpdf_terms N ia im (to_spec N ws k) st md pars data = Impl.Ok l ->
+      Impl.logpdf_terms N ia im (to_spec N ws' k) st md' pars data = Impl.Ok l' ->
+      sumlog logpois lognorm l' = sumlog logpois lognorm l.
+  Proof. intros Hw Ho Hs Hn Hg Hsh Hk Hc.
+    destruct (roundtrip_model N Hf Heqb ws x file Hw Ho Hs Hn) as [ws' [R1 [R2 _]]].
+    exists ws'. split; auto. intros ia im st md md' lp ln pars data l l' Hb Hb' Hcg Hl Hl'.
+    destruct (roundtrip_spec N Hf Heqb ws x file k Hw Ho Hs Hn Hg Hk Hc) as [ws2 [S1 [_ [_ S2]]]].
+    rewrite R1 in S1. inversion S1; subst ws2.
+    apply (spec_rt_loglik_same_vector (to_spec N ws k) (to_spec N ws' k) S2 (to_spec_list_shape_ok N ws _) (to_spec_shape_ok N ws _)
+             (to_spec_list_shape_ok N ws' _) (to_spec_shape_ok N ws' _) ia im st md md' lp ln pars data l l' Hb Hb' Hcg); auto.
+    set (m := nth k (w_meas N ws) (no_meas N)).
+    set (spA := {| Spec.channels := map (conv_chan N) (map (expected_channel N) (w_channels N ws));
+                   Spec.parameters := Spec.parameters (to_spec_m N ws m); Spec.poi := Spec.poi (to_spec_m N ws m) |}).
+    assert (HbA : Impl.build N spA = Impl.Ok md).
+    { unfold spA. rewrite (ConfigPerm.build_listing_invariant N _ _ (expected_spec_perm ws m Hg Hsh)). exact Hb. }
+    apply (same_channels_layout spA (to_spec N ws' k) md md'); auto. unfold spA. simpl. now rewrite R2. Qed.
 End Top.
 
 (* ================= 7. boolean deciders of the guards (for the examples and for a correspondence run) ================= *)
@@ -843,6 +905,14 @@ Section Deciders.
       destruct (p_auxdata N p) as [[|l lt]|] eqn:Ea; try discriminate. destruct (p_sigmas N p) as [[|s0 st]|] eqn:Es; try discriminate.
       exists p, l, lt, s0, st. auto. Qed.
 
+  Definition shape_guardb (ws : workspace N) : bool :=
+    forallb (fun c => forallb (fun s => forallb (fun m => match m_data N m with DShapesys d => leqb (mask N d (s_data N s)) d | _ => true end)
+                                                (s_mods N s)) (c_samples N c)) (w_channels N ws).
+  Lemma shape_guardb_sound ws : shape_guardb ws = true -> shape_guard N ws.
+  Proof. unfold shape_guardb, shape_guard. intros H. apply Forall_forall. intros c Hc. apply Forall_forall. intros s Hs. apply Forall_forall.
+    intros m Hm. rewrite forallb_forall in H. specialize (H c Hc). rewrite forallb_forall in H. specialize (H s Hs).
+    rewrite forallb_forall in H. specialize (H m Hm). destruct (m_data N m); auto. now apply leqb_sound. Qed.
+
   (* all hypotheses of roundtrip_likelihood / roundtrip_loglik at once *)
   Definition lik_hypsb (ws : workspace N) (k : nat) : bool :=
     guardsb N ws && lik_guardb ws && Nat.ltb k (length (w_meas N ws)) && cfg_guardb ws (nth k (w_meas N ws) (no_meas N)).
@@ -862,6 +932,8 @@ Definition roundtrip_loglik_Qc := roundtrip_loglik QcNum Qcft Qc_eqb_spec Qc_lt0
 Definition roundtrip_loglik_R := roundtrip_loglik RNum Rfield R_eqb_spec R_lt00.
 Definition roundtrip_loglik_canonical_Qc := roundtrip_loglik_canonical QcNum Qcft Qc_eqb_spec Qc_lt00.
 Definition roundtrip_loglik_canonical_R := roundtrip_loglik_canonical RNum Rfield R_eqb_spec R_lt00.
+Definition roundtrip_loglik_same_vector_Qc := roundtrip_loglik_same_vector QcNum Qcft Qc_eqb_spec Qc_lt00.
+Definition roundtrip_loglik_same_vector_R := roundtrip_loglik_same_vector RNum Rfield R_eqb_spec R_lt00.
 Definition spec_rt_loglik_same_vector_Qc := spec_rt_loglik_same_vector QcNum Qcft Qc_eqb_spec Qc_lt00.
 Definition spec_rt_loglik_same_vector_R := spec_rt_loglik_same_vector RNum Rfield R_eqb_spec R_lt00.
 
@@ -958,3 +1030,29 @@ Proof. intros k Hk.
   exists x, f, ws', md, md', (repeat 1%Qc (Impl.md_npars QcNum md)), (to_data QcNum lik_ws md), l, l'.
   split; [reflexivity|]. split; [exact Er|]. split; [reflexivity|]. split; [exact Eb'|]. split; [exact I|].
   split; [now apply tups_eqb_sound|]. split; [reflexivity|]. split; [now apply (leqb_sound QcNum Qc_eqb_spec)|]. split; [exact E1|exact E2]. Qed.
+
+(* the same workspace without the shapesys uncertainty on the empty bin: additionally meets shape_guard (premises of
+   roundtrip_loglik_same_vector), both specifications accepted *)
+Definition lik_ws2 : workspace QcNum :=
+  WS
+    [CH "ch1"
+       [SA "sig" [q 5 1; q 15 2] [MO "mu" DNF; MO "lumi" DL];
+        SA "bkg" [q 50 1; q 0 1]
+          [MO "staterror_ch1" (DST [q 3 1; q 0 1]); MO "ss" (DSS [q 2 1; q 0 1]);
+           MO "ns" (DN (q 9 10) (q 11 10)); MO "hs" (DH [q 45 1; q 1 10] [q 55 1; q 1 1]);
+           MO "sf" DSF]];
+     CH "ch2"
+       [SA "bkg2" [q 10 1; q 20 1; q 30 1]
+          [MO "staterror_ch2" (DST [q 1 1; q 2 1; q 3 1]); MO "lumi" DL; MO "ns" (DN (q 4 5) (q 6 5))]]]
+    (w_obs QcNum lik_ws) (w_meas QcNum lik_ws).
+Example lik_demo2_hyps : lik_hypsb QcNum lik_ws2 0 = true /\ lik_hypsb QcNum lik_ws2 1 = true /\ shape_guardb QcNum lik_ws2 = true /\
+  demo_impl_check lik_ws2 0 = true /\ demo_impl_check lik_ws2 1 = true.
+Proof. repeat split; vm_compute; reflexivity. Qed.
+Example roundtrip_loglik_same_vector_nonvacuous : forall k, (k < 2)%nat ->
+  ((exists x f, write QcNum lik_ws2 = inl (x, f)) /\ w_obs QcNum lik_ws2 <> [] /\ stat_ok QcNum lik_ws2 /\ names_ok QcNum lik_ws2 /\
+   lik_guard QcNum lik_ws2 /\ (k < length (w_meas QcNum lik_ws2))%nat /\ cfg_guard QcNum lik_ws2 (nth k (w_meas QcNum lik_ws2) (no_meas QcNum))) /\
+  shape_guard QcNum lik_ws2 /\ demo_impl_check lik_ws2 k = true.
+Proof. intros k Hk. destruct lik_demo2_hyps as (H0 & H1 & H2 & H3 & H4). split; [|split].
+  - apply lik_hypsb_sound. destruct k as [|[|k]]; auto; lia.
+  - now apply (shape_guardb_sound QcNum Qc_eqb_spec).
+  - destruct k as [|[|k]]; auto; lia. Qed.
